@@ -18,7 +18,7 @@ NA = {
 CHECKS = {
  "C03": dict(
    level="exploration", ref="4/C03",
-   text="Seeded search over (medium x stored-byte faults x delivery schedule): streams written by the real writer and by an independent foreign-ECU stub are damaged by the whole fault catalogue (bit flips, byte overwrites, LEN / NOAR / type-info / length-prefix corruption, junk, dropped / zeroed / duplicated blocks, truncation, torn writes followed by > 64 KiB fill tails) and delivered through a scripted source to four consumers that keep running after the fault: streaming slice consumer (dlt_message, 4 option combinations, pattern resync), indexer (dlt_consume_msg, skip_storage_header, random-access parses), non-verbose decode stage (construct_arguments, dlt_zero_terminated_string) and use of every returned message (as_bytes, byte_len, Argument::len/as_bytes/valid, UTF-8 re-check). catch_unwind around every call; overflow checks and debug assertions on; second pass with a Trace logger; the check runs in a supervised child process, so a stack overflow, a refused allocation or a run that does not end (20 s of its own CPU time) is located, minimised and reported as a violation too instead of killing the check. Sampling, not a proof of panic-freedom.",
+   text="Seeded search over (medium x stored-byte faults x delivery schedule): streams written by the real writer and by an independent foreign-ECU stub are damaged by the whole fault catalogue (bit flips, byte overwrites, LEN / NOAR / type-info / length-prefix corruption, junk, dropped / zeroed / duplicated blocks, truncation, torn writes followed by > 64 KiB fill tails) and delivered through a scripted source to four consumers that keep running after the fault: streaming slice consumer (dlt_message, 4 option combinations, pattern resync), indexer (dlt_consume_msg, skip_storage_header, random-access parses), non-verbose decode stage (construct_arguments, dlt_zero_terminated_string) and use of every returned message (as_bytes, byte_len, Argument::len/as_bytes/valid, UTF-8 re-check). catch_unwind around every call; overflow checks and debug assertions on; second pass with a Trace logger; the check runs in a supervised child process, so a stack overflow, a refused allocation or a run that does not end (60 s of its own CPU time) is located, minimised and reported as a violation too instead of killing the check. Sampling, not a proof of panic-freedom.",
    note="Claimed only in the form DESIGN.md section 2 item 3 allows (stored-byte fault followed by continued operation); call by call these entry points are pure functions. Not a coverage-guided fuzzer, not run under Miri: out-of-bounds reads inside safe code would surface as panics, the one unsafe block is covered by the UTF-8 re-check.",
    technique="deterministic simulation: storage-fault injection on a simulated medium + scripted delivery to long-running consumers, no-panic / validity invariants, seeded search, minimised replay files"),
  "C04": dict(
@@ -53,7 +53,7 @@ CHECKS = {
    technique="deterministic simulation: scripted Read source + seeded merge histories, reference-model oracle (header decoder + tally), replay files"),
  "C12": dict(
    level="fault_enumeration", ref="4/C12",
-   text="Fault enumeration on content at rest: every truncation offset of the two shipped documents and of generated documents, plus seeded byte faults, structure-aware deletions, non-numeric and extreme numbers, rewired references (self references, cycles, wrong kind, duplicated ids), elements nested into each other, 64..200000-fold repeated start tags / CDATA / comment openers, UTF-16 re-encoding and file-level faults (missing / empty / directory / symlink loop / empty path list). Termination is decided in steps of the XML reader through the guarded hook (budget 2*bytes+64), so a hang there is a deterministic, replayable signal; a loop elsewhere is cut by a CPU-time budget (20 s of the loading thread's own CPU time; a load needs < 50 ms) in a supervised child process, which also turns a stack overflow or a refused allocation into a located, minimised violation; no panic; answer is Some or None.",
+   text="Fault enumeration on content at rest: every truncation offset of the two shipped documents and of generated documents, plus seeded byte faults, structure-aware deletions, non-numeric and extreme numbers, rewired references (self references, cycles, wrong kind, duplicated ids), elements nested into each other, 64..200000-fold repeated start tags / CDATA / comment openers, UTF-16 re-encoding and file-level faults (missing / empty / directory / symlink loop / empty path list). Termination is decided in steps of the XML reader through the guarded hook (budget 2*bytes+64), so a hang there is a deterministic, replayable signal; a loop elsewhere is cut by a CPU-time budget (60 s of the loading thread's own CPU time; a load needs < 1 s) in a supervised child process, which also turns a stack overflow or a refused allocation into a located, minimised violation; no panic; answer is Some or None.",
    note="Read-level faults (EIO, short reads) cannot be injected: the API takes paths and read_pdu/read_frame are typed to BufReader<File>. Wall-clock time decides nothing (a 15-minute per-run limit exists only for a run blocked in the kernel). Exhaustive per document over cut positions; documents are sampled.",
    technique="deterministic simulation: torn-file enumeration (every byte) + stored-byte fault injection, step-clock hook for bounded liveness, replay files"),
  "C16": dict(
